@@ -41,6 +41,8 @@ def run(ctx):
     ctx.do(rule_number_constants)
     from .hidden_state import rule_no_hidden_state
     ctx.do(rule_no_hidden_state, "C16.history-independence")
+    from .pitfalls import rule_loops_not_cut_short
+    ctx.do(rule_loops_not_cut_short, "C16.loops-complete")
 
 
 def _value_table(stmts, var):
@@ -396,6 +398,56 @@ def rule_number_constants(ctx, rule_id="C16.number-constants"):
     last0 = [s for s in body_walk(fi.node) if isinstance(s, ast.If) and norm(s.test).endswith("== '0'") and "[" not in norm(s.test)]
     run.check(bool(last0), R, key(rel, fi.qualname, "trailing-point-zero"), "a fractional part '.0' is not removed (1.0 must be written 1)",
               file=rel, line=fi.node.lineno, function=fi.qualname, expected="if pyLast == '0': drop the fraction", found="absent")
+    # 5b. how MANY zeros pad the expanded forms: counted symbolically from each `while q <op> <bound>: q += <step>; <text> += '0'`
+    #     loop and the value q starts from.  Integer window (exponent e, d digits): e - d + 1 zeros are appended, so that the
+    #     number has e + 1 digits; fraction window: -e - 1 zeros are inserted after '0.'.  One more or one less is a factor ten.
+    pads = []
+    for w in [x for x in body_walk(fi.node) if isinstance(x, ast.While)]:
+        t_ = w.test
+        steps = [a_ for a_ in w.body if isinstance(a_, ast.AugAssign) and isinstance(a_.target, ast.Name) and isinstance(a_.value, ast.Constant)
+                 and a_.value.value == 1 and isinstance(a_.op, (ast.Add, ast.Sub))]
+        zeros = [a_ for a_ in w.body if (isinstance(a_, ast.AugAssign) and isinstance(a_.value, ast.Constant) and a_.value.value == "0")
+                 or (isinstance(a_, ast.Assign) and isinstance(a_.value, ast.BinOp) and any(
+                     isinstance(o_, ast.Constant) and o_.value == "0" for o_ in (a_.value.left, a_.value.right)))]
+        if not (isinstance(t_, ast.Compare) and len(t_.ops) == 1 and isinstance(t_.left, ast.Name) and len(steps) == 1 and len(zeros) == 1
+                and steps[0].target.id == t_.left.id and len(w.body) == 2):
+            continue
+        try:
+            bound = Evaluator(prog).eval(t_.comparators[0], fi.module.scope)
+        except Exception:
+            bound = None
+        if not isinstance(bound, int):
+            continue
+        q_ = t_.left.id
+        down = isinstance(steps[0].op, ast.Sub)
+        op_ = type(t_.ops[0]).__name__
+        # iterations as  sign * q0 + k   (for q0 in the range where the loop runs at all)
+        k = None
+        if down and op_ == "GtE":
+            k = 1 - bound          # q0 - bound + 1
+        elif down and op_ == "Gt":
+            k = -bound
+        elif (not down) and op_ == "Lt":
+            k = bound              # bound - q0
+        elif (not down) and op_ == "LtE":
+            k = bound + 1
+        inits = [norm(a_.value) for a_ in body_walk(fi.node) if isinstance(a_, ast.Assign) and norm(a_.targets[0]) == q_ and a_.lineno < w.lineno]
+        pads.append(("down" if down else "up", k, inits[-1] if inits else None, w))
+    want_p = {("down", 1): "integer window: e - d + 1 zeros appended", ("up", -1): "fraction window: -e - 1 zeros inserted"}
+    got_p = {(d_, k_) for d_, k_, _i, _w in pads}
+    okp = got_p == set(want_p) and len(pads) == 2
+    if okp:
+        for d_, k_, init_, w_ in pads:
+            if d_ == "down" and not (evar and init_ and init_.replace(" ", "").startswith(evar + "-len(")):
+                okp = False
+            if d_ == "up" and not (evar and init_ == evar):
+                okp = False
+    run.check(okp, R, key(rel, fi.qualname, "zero-padding-counts"),
+              "the number of zeros that pad an expanded number is not (exponent - digits + 1) in the integer window / (-exponent - 1) "
+              "in the fraction window: the written number is ten times too large or too small (1e20 -> 22 digits)", file=rel,
+              line=pads[0][3].lineno if pads else fi.node.lineno, function=fi.qualname,
+              expected="q = e - len(digits); while q >= 0: q -= 1; digits += '0'   /   q = e; while q < -1: q += 1; frac = '0' + frac",
+              found=[(d_, k_, i_) for d_, k_, i_, _w in pads])
     # 6. sign handled and result is the concatenation
     rets = [r for r in returns_of(fi) if norm(r.value) != "'0'"]
     ok6 = len(rets) == 1 and isinstance(rets[0].value, ast.BinOp) and len([x for x in ast.walk(rets[0].value) if isinstance(x, ast.Name)]) == 5
